@@ -300,20 +300,126 @@ def r4(rr, repo):
     start = Path()
     paths = ev.run(loops[0].body, start)
     rr.paths += len(paths)
-    want = {
-        'flipx': r'Frame\(cv2\.flip\(frame\.image, 1\), frame\)', 'flipy': r'Frame\(cv2\.flip\(frame\.image, 0\), frame\)',
-        'flipboth': r'Frame\(cv2\.flip\(frame\.image, -1\), frame\)', 'rotcw': r'Frame\(cv2\.rotate\(frame\.image, cv2\.ROTATE_90_CLOCKWISE\), frame\)',
-        'rotccw': r'Frame\(cv2\.rotate\(frame\.image, cv2\.ROTATE_90_COUNTERCLOCKWISE\), frame\)',
-        'fmtrgb': r'frame\.rgb', 'fmtbgr': r'frame\.bgr', 'fmtgray': r'frame\.gray',
-    }
+    FLIP_CODE = {'flipx': 1, 'flipy': 0, 'flipboth': -1}
+    FLIP_AXES = {'flipx': {1}, 'flipy': {0}, 'flipboth': {0, 1}}
+    ROT = {'rotcw': ('ROTATE_90_CLOCKWISE', -1), 'rotccw': ('ROTATE_90_COUNTERCLOCKWISE', 1)}
+    FMT = {'fmtrgb': 'rgb', 'fmtbgr': 'bgr', 'fmtgray': 'gray'}
+
+    def const_int(n):
+        if isinstance(n, ast.Constant) and isinstance(n.value, int):
+            return n.value
+        if isinstance(n, ast.UnaryOp) and isinstance(n.op, ast.USub) and isinstance(n.operand, ast.Constant) and isinstance(n.operand.value, int):
+            return -n.operand.value
+        return None
+
+    def arg(call, i, name):
+        if len(call.args) > i:
+            return call.args[i]
+        return q.kwarg(call, name)
+
+    def is_src(n):
+        return U(n) in ('frame.image', 'image', 'frame.rw.image', 'frame.ro.image')
+
+    def fresh(n):
+        """-> (inner expression, True) when n is `<x>.copy()` / np.ascontiguousarray(<x>) / np.array(<x>) else (n, False)"""
+        if isinstance(n, ast.Call) and isinstance(n.func, ast.Attribute) and n.func.attr == 'copy' and not n.args:
+            return n.func.value, True
+        if isinstance(n, ast.Call) and U(n.func) in ('np.ascontiguousarray', 'numpy.ascontiguousarray', 'np.array', 'numpy.array', 'np.copy', 'numpy.copy') and n.args:
+            return n.args[0], True
+        return n, False
+
+    def reversed_axes(n):
+        """axes reversed by a slicing / np.flip* view of the source image, or None"""
+        if isinstance(n, ast.Subscript) and is_src(n.value):
+            idx = n.slice.elts if isinstance(n.slice, ast.Tuple) else [n.slice]
+            axes = set()
+            for k, sl in enumerate(idx):
+                if not isinstance(sl, ast.Slice):
+                    return None
+                if sl.lower is None and sl.upper is None and sl.step is None:
+                    continue
+                if sl.lower is None and sl.upper is None and const_int(sl.step) == -1:
+                    axes.add(k)
+                else:
+                    return None
+            return axes
+        if isinstance(n, ast.Call) and U(n.func) in ('np.fliplr', 'numpy.fliplr') and n.args and is_src(n.args[0]):
+            return {1}
+        if isinstance(n, ast.Call) and U(n.func) in ('np.flipud', 'numpy.flipud') and n.args and is_src(n.args[0]):
+            return {0}
+        if isinstance(n, ast.Call) and U(n.func) in ('np.flip', 'numpy.flip') and n.args and is_src(n.args[0]):
+            ax = arg(n, 1, 'axis')
+            if ax is None:
+                return None
+            if const_int(ax) is not None:
+                return {const_int(ax)}
+            if isinstance(ax, ast.Tuple) and all(const_int(e) is not None for e in ax.elts):
+                return {const_int(e) for e in ax.elts}
+        return None
+
+    def judge(action, text):
+        """-> (True | False | None, reason): accepted idiom / confirmed wrong / outside the table"""
+        try:
+            n = ast.parse(text, mode='eval').body
+        except SyntaxError:
+            return None, 'unparsable'
+        if action in FMT:
+            return (U(n) == f'frame.{FMT[action]}'), f'accessor {U(n)}'
+        if not (isinstance(n, ast.Call) and U(n.func) == 'Frame' and len(n.args) >= 2 and U(n.args[1]) == 'frame'):
+            return None, 'the result is not Frame(<pixels>, frame)'
+        x = n.args[0]
+        if action in FLIP_CODE:
+            if isinstance(x, ast.Call) and U(x.func) == 'cv2.flip' and x.args and is_src(x.args[0]):
+                code = const_int(arg(x, 1, 'flipCode')) if arg(x, 1, 'flipCode') is not None else None
+                if code is None:
+                    return None, 'flip code is not a literal'
+                want = FLIP_CODE[action]
+                return (code == want or (want == -1 and code < 0) or (want == 1 and code > 0)), f'cv2.flip code {code}'
+            inner, isfresh = fresh(x)
+            axes = reversed_axes(inner)
+            if axes is not None:
+                if axes != FLIP_AXES[action]:
+                    return False, f'reverses axes {sorted(axes)}, {action} reverses {sorted(FLIP_AXES[action])}'
+                if not isfresh:
+                    return False, 'a negative-stride view of the input is handed on: it shares memory with its source and cv2 drawing / in-place functions reject it, so a later transform of the chain fails'
+                return True, 'reversed copy'
+            return None, 'unrecognised flip idiom'
+        if action in ROT:
+            cname, k = ROT[action]
+            if isinstance(x, ast.Call) and U(x.func) == 'cv2.rotate' and x.args and is_src(x.args[0]):
+                code = arg(x, 1, 'rotateCode')
+                if code is None or not U(code).startswith('cv2.ROTATE_'):
+                    return None, 'rotate code is not a cv2 constant'
+                return U(code) == f'cv2.{cname}', U(code)
+            inner, isfresh = fresh(x)
+            if isinstance(inner, ast.Call) and U(inner.func) in ('np.rot90', 'numpy.rot90') and inner.args and is_src(inner.args[0]):
+                kk = arg(inner, 1, 'k')
+                kv = 1 if kk is None else const_int(kk)
+                if kv is None:
+                    return None, 'rot90 count is not a literal'
+                if kv % 4 != k % 4:
+                    return False, f'np.rot90 k={kv}'
+                if not isfresh:
+                    return False, 'a strided view of the input is handed on (see flips)'
+                return True, 'rot90 copy'
+            return None, 'unrecognised rotation idiom'
+        return None, 'no table row'
+
     seen = set()
     for p in paths:
         act = [k[4:k.index("',")] for k, v in p.facts.items() if k.startswith("eq('") and k.endswith(', xform.action)') and v is True]
-        if len(act) != 1 or act[0] not in want:
+        if len(act) != 1 or act[0] not in (set(FLIP_CODE) | set(ROT) | set(FMT)):
             continue
         b = [e for e in p.events if e.kind == 'bind' and e.term == 'frame']
         seen.add(act[0])
-        rr.ob(f'{act[0]} is implemented by the documented operation', bool(b) and re.fullmatch(want[act[0]], b[-1].args[0]) is not None, mod, b[-1].node if b else exe, witness=b[-1].args[0][:120] if b else '', key=f'op|{act[0]}')
+        if not b:
+            rr.violated(f'{act[0]} does not produce a new frame', mod, exe, key=f'op|{act[0]}')
+            continue
+        v, why = judge(act[0], b[-1].args[0])
+        if v is None:
+            rr.unresolved(f'{act[0]}: {why} - the operation table of C17.R4 does not know this way of writing it', mod, b[-1].node, witness=b[-1].args[0][:120], key=f'op|{act[0]}')
+        else:
+            rr.ob(f'{act[0]} is the documented operation (exact permutation of the pixels, handed on as an array of its own)', v, mod, b[-1].node, witness=f'{b[-1].args[0][:100]}: {why}', key=f'op|{act[0]}')
     rr.floor('table rows evaluated', len(seen), 8, mod, exe)
     # executing a transform never writes into the xform record: it is shared by every frame (of any format) that passes
     for name in ('execute_xforms', 'execute_xform_size', 'execute_xform_box'):
